@@ -409,6 +409,8 @@ def check(ctx):
         restore_flow(ctx, o)
     obs.append(ctx.shared('c10', 'C10.4', 'C03.13', 'a processor that waits for resources is woken by the callback it registered; that needs a registered request to stay in the '
                           'waiting list until it is served (withdrawn or reordered requests leave a waiting device asleep)'))
+    obs.append(ctx.shared('c05', 'C05.4', 'C03.14', 'a finite-horizon run returns only if a hand-over deferred by the buffer delay is retried at a time at which the delay test passes: '
+                          'the test and the retry time must be the same expression (arrival + delay against now, one ulp of slack), or the retry is re-scheduled at the same instant for ever'))
     return obs
 
 
